@@ -44,10 +44,12 @@ def strings_of(v):
             yield from strings_of(x)
 
 
-def wf(v, tmp="\x01"):
-    """depth <= 2, lists non-empty, a list of >= 2 elements does not end in '', no tmp char"""
+def wf(v, tmp=None):
+    """depth <= 2, lists non-empty, a list of >= 2 elements does not end in ''; and, when the code's
+    cleanse goes through a temporary character tmp (the model's cleanse_tmp, regenerated from the code;
+    None on a tree with the one-pass un-escape), no string contains it"""
     def str_ok(s):
-        return tmp not in s
+        return tmp is None or tmp not in s
 
     def last_ok(l):
         return len(l) < 2 or l[-1] != ""
@@ -63,8 +65,26 @@ def wf(v, tmp="\x01"):
 
 
 def wf_statement(v):
-    """the domain of the property statement, *without* the tmp-char exclusion"""
-    return wf(v, tmp="\udfff")
+    """the domain of the property statement: no condition on the strings"""
+    return wf(v, tmp=None)
+
+
+def subst_nv(v, a, b):
+    return v.replace(a, b) if isinstance(v, str) else [subst_nv(x, a, b) for x in v]
+
+
+def u1_key(r, other):
+    """class of a failure on the replay record r: the finding "value-contains-U+0001" (the temporary character of
+    the three-replace cleanse) when the input contains U+0001 AND the same input with every U+0001 replaced by an
+    ordinary letter satisfies the property, i.e. U+0001 is the cause; otherwise the failure is its own class"""
+    vals = [x for k, x in r.items() if k != "fn"]
+    if not any("\x01" in s for x in vals for s in strings_of(x)):
+        return other
+    r2 = {k: (x if k == "fn" else subst_nv(x, "\x01", "a")) for k, x in r.items()}
+    try:
+        return "value-contains-U+0001" if holds(r2) else other
+    except Exception:
+        return other
 
 
 def has_unescaped(s, seps="|;"):
@@ -91,6 +111,17 @@ def ends_escaped(s):
     return False
 
 
+RAISED = "<raised>"
+
+
+def safe(fn, *a):
+    """implementation call that may raise on a mutated tree: the exception becomes a value no oracle accepts"""
+    try:
+        return fn(*a)
+    except Exception as e:
+        return (RAISED, type(e).__name__)
+
+
 def inert_expect(cp, lpre, rpost, d):
     shape = cp.split_into_lists(lpre + "Q" + rpost)
     return trim(subst(shape, "Q", d))
@@ -101,7 +132,7 @@ def subst(v, a, b):
 
 
 # ---- value generators ----------------------------------------------------------------
-POOL = ["", "a", " ", "|", ";", "\\", "a|b", " a ", "\\;", "b\\", "é", "\n", "\x01", "x;y|z", "\\\\|"]
+POOL = ["", "a", " ", "|", ";", "\\", "a|b", " a ", "\\;", "b\\", "é", "\n", "\x01", "x;y|z", "\\\\|", "a\x01b", "\\\x01", "\x01;\x01|"]
 
 
 def rand_str(rng, maxlen=6):
@@ -130,13 +161,26 @@ def run(ctx):
     thorough = ctx.tier == "thorough"
     m = ctx.model
 
+    # which un-escape does the code have?  The model follows the regenerated constant cleanse_tmp
+    # (Some t: three replaces through t; None: one pass).  Its value only steers the correspondence of
+    # wfb and the alphabet (a temporary character other than U+0001 must be exercised too); the ORACLE
+    # never looks at it: U+0001 and every other character are ordinary values of the statement.
+    tmp = None
+    alpha = list(ALPHA)
+    if m:
+        t = parse_sexp(m.ask("(1 10)"))
+        tmp = chr(t[0]) if t else None
+        if tmp is not None and tmp not in alpha:
+            alpha.append(tmp)
+    ctx.stats["model_cleanse_tmp"] = repr(tmp) if m else "model not built"
+
     # ------------------------------------------------ exhaustive small scope (strings)
     maxlen = 7 if thorough else 5
     if ctx.scale > 1:
         maxlen = min(maxlen + 1, 7)
     strings = [""]
     for n in range(1, maxlen + 1):
-        strings += ["".join(t) for t in itertools.product(ALPHA, repeat=n)]
+        strings += ["".join(t) for t in itertools.product(alpha, repeat=n)]
     ctx.count("exhaustive_strings", len(strings))
 
     nontrivial = set()
@@ -157,39 +201,53 @@ def run(ctx):
             reqs = []
             for s in chunk:
                 e = enc_str(s)
-                reqs += [f"(1 1 {e} 0)", f"(1 1 {e} 1)", f"(1 2 {e})", f"(1 3 {e})", f"(1 4 {e})"]
+                reqs += [f"(1 1 {e} 0)", f"(1 1 {e} 1)", f"(1 2 {e})", f"(1 3 {e})", f"(1 4 {e})",
+                         f"(1 12 {enc_str(s.strip())})"]
             outs = m.ask_many(reqs)
         for i, s in enumerate(chunk):
-            im = impl_all(s)
+            try:
+                im = impl_all(s)
+            except Exception as e:
+                # a cell function raising on a plain string: the cell is then neither a string nor a list
+                v.coverage["evaluations"] += 1
+                rr = dict(fn="split_into_lists", s=s)
+                v.failing_input(u1_key(rr, "cell-function-raises"), f"a CellParser function raised {type(e).__name__} on {s!r}", rr)
+                continue
             v.coverage["evaluations"] += 1
             if has_unescaped(s) or "\\" in s:
                 nontrivial.add(s)
             if m:
-                o = outs[5 * i:5 * i + 5]
+                o = outs[6 * i:6 * i + 6]
                 mo = (dec_split(parse_sexp(o[0])), dec_split(parse_sexp(o[1])), dec_nv(parse_sexp(o[2])),
                       dec_str(parse_sexp(o[3])), dec_str(parse_sexp(o[4])))
                 if mo != im:
                     ctx.disagree("cell functions on a string", repr(s), repr(mo), repr(im))
+                # the one-pass un-escape IS cleanse: on every string when the code has no temporary
+                # character, on every string without it otherwise (theorem phases_one_pass)
+                if tmp is None or tmp not in s:
+                    mu = dec_str(parse_sexp(o[5]))
+                    if mu != im[3]:
+                        ctx.disagree("unescape(strip s) vs cleanse", repr(s), repr(mu), repr(im[3]))
             # oracle (C08-3): no unescaped separator <=> plain string
             r = im[2]
             if has_unescaped(s) != isinstance(r, list):
                 v.failing_input("string-vs-list", f"split_into_lists({s!r}) = {r!r}", dict(fn="split_into_lists", s=s))
             # oracle (C08-1): every string survives escape + split, trimmed
-            back = cp.split_into_lists(cp.join_from_lists(s))
+            back = safe(lambda: cp.split_into_lists(cp.join_from_lists(s)))
             if back != s.strip():
-                key = "value-contains-U+0001" if "\x01" in s else "string-roundtrip"
-                v.failing_input(key, f"split(join({s!r})) = {back!r}", dict(fn="roundtrip", value=s))
+                rr = dict(fn="roundtrip", value=s)
+                v.failing_input(u1_key(rr, "string-roundtrip"), f"split(join({s!r})) = {back!r}", rr)
 
     # ------------------------------------------------ nested values: join, wf, round trip
     n_vals = (60000 if thorough else 6000) * ctx.scale
     vals = []
-    # structured enumeration: all depth-1 lists of length <= 3 over a pool of 8 strings
-    small = ["", "a", " ", "|", ";", "\\", "b\\", "\\;"]
+    # structured enumeration: all depth-1 lists of length <= 3 over a pool of 9 strings
+    small = ["", "a", " ", "|", ";", "\\", "b\\", "\\;", "\x01"]
     for n in range(0, 4):
         for t in itertools.product(small, repeat=n):
             vals.append(list(t))
-    # all depth-2 values with <= 2 elements of <= 2 leaves over 4 strings
-    leaves = ["", "a", ";", "\\"]
+    # all depth-2 values with <= 2 elements of <= 2 leaves over 5 strings
+    leaves = ["", "a", ";", "\\", "\x01"]
     elems = list(leaves) + [list(t) for n in range(0, 3) for t in itertools.product(leaves, repeat=n)]
     for n in range(1, 3):
         for t in itertools.product(elems, repeat=n):
@@ -202,7 +260,7 @@ def run(ctx):
         reqs = []
         for x in vals:
             e = enc_nv(x)
-            reqs += [f"(1 5 {e})", f"(1 6 {e})", f"(1 7 {e})"]
+            reqs += [f"(1 5 {e})", f"(1 6 {e})", f"(1 7 {e})", f"(1 11 {e})"]
         outs = m.ask_many(reqs)
     seen = set()
     for i, x in enumerate(vals):
@@ -216,13 +274,16 @@ def run(ctx):
             dist["join_error"] += 1
         if depth(x) >= 3:
             dist["depth3+"] += 1
-        is_wf = wf(x)
+        is_wf = wf(x, tmp)
         dist["wf" if is_wf else "not_wf"] += 1
         if m:
-            mj = parse_sexp(outs[3 * i])
+            mj = parse_sexp(outs[4 * i])
             mj = dec_str(mj[0]) if mj else None
-            mwf = parse_sexp(outs[3 * i + 1]) == 1
-            mtrim = dec_nv(parse_sexp(outs[3 * i + 2]))
+            mwf = parse_sexp(outs[4 * i + 1]) == 1
+            mtrim = dec_nv(parse_sexp(outs[4 * i + 2]))
+            mshape = parse_sexp(outs[4 * i + 3]) == 1
+            if mshape != wf_statement(x):
+                ctx.disagree("shape_ok vs the statement's domain", repr(x), mshape, wf_statement(x))
             if mj != j:
                 ctx.disagree("join_from_lists", repr(x), repr(mj), repr(j))
             if mwf != is_wf:
@@ -237,13 +298,13 @@ def run(ctx):
             if j is None:
                 v.failing_input("join-error", f"join_from_lists({x!r}) raised", dict(fn="roundtrip", value=x))
                 continue
-            back = cp.split_into_lists(j)
+            back = safe(cp.split_into_lists, j)
             # parse (= strip the cell, then split) additionally needs that no list ends in a
             # *blank* element: the domain of the statement is wf(x) and wf(trim(x))
-            back_parse = cp.parse(j) if wf_statement(trim(x)) else trim(x)
+            back_parse = safe(cp.parse, j) if wf_statement(trim(x)) else trim(x)
             if back != trim(x) or back_parse != trim(x):
-                k = "value-contains-U+0001" if any("\x01" in s for s in strings_of(x)) else "list-roundtrip"
-                v.failing_input(k, f"split(join({x!r})) = {back!r}", dict(fn="roundtrip", value=x))
+                rr = dict(fn="roundtrip", value=x)
+                v.failing_input(u1_key(rr, "list-roundtrip"), f"split(join({x!r})) = {back!r}", rr)
     ctx.stats["nested_values"] = dist
 
     # ------------------------------------------------ random long strings (incl. unicode spaces)
@@ -259,7 +320,10 @@ def run(ctx):
         for i, s in enumerate(longs):
             v.coverage["evaluations"] += 1
             mo = dec_nv(parse_sexp(outs[i]))
-            im = cp.split_into_lists(s)
+            im = safe(cp.split_into_lists, s)
+            if isinstance(im, tuple) and im[:1] == (RAISED,):
+                rr = dict(fn="split_into_lists", s=s)
+                v.failing_input(u1_key(rr, "cell-function-raises"), f"split_into_lists raised {im[1]} on {s!r}", rr)
             if mo != im:
                 ctx.disagree("split_into_lists (long/unicode)", repr(s), repr(mo), repr(im))
             ms = dec_str(parse_sexp(outs[len(longs) + i]))
@@ -282,21 +346,22 @@ def run(ctx):
     n_inert = 0
     for _ in range(n_t):
         pre, post, d = rand_str(rng, 4), rand_str(rng, 4), rand_str(rng, 5)
-        for bad in ("{", "}", "\x01"):
+        for bad in ("{", "}"):
             pre, post = pre.replace(bad, ""), post.replace(bad, "")
-        d = d.replace("\x01", "")
         v.coverage["evaluations"] += 1
         tmpl = pre + "{{x|escape}}" + post
         r = run_cli_mode(cp.parse, tmpl, {"x": d})
         if r[0] != "ok":
-            v.failing_input("template-error", f"parse({tmpl!r}, x={d!r}) -> {r}", dict(fn="inert", pre=pre, post=post, d=d))
+            rr = dict(fn="inert", pre=pre, post=post, d=d)
+            v.failing_input(u1_key(rr, "template-error"), f"parse({tmpl!r}, x={d!r}) -> {r}", rr)
             continue
         got = r[1]
         # expanded before split: parse strips the *template*, renders, then splits the text
         lpre, rpost = pre.lstrip(), post.rstrip()
         expanded = lpre + CellParser.escape_string(d) + rpost
-        if got != cp.split_into_lists(expanded):
-            v.failing_input("expand-then-split", f"parse({tmpl!r}, x={d!r}) = {got!r}", dict(fn="inert", pre=pre, post=post, d=d))
+        if got != safe(cp.split_into_lists, expanded):
+            rr = dict(fn="inert", pre=pre, post=post, d=d)
+            v.failing_input(u1_key(rr, "expand-then-split"), f"parse({tmpl!r}, x={d!r}) = {got!r}", rr)
         if m:
             mo = dec_nv(parse_sexp(m.ask(f"(1 2 {enc_str(expanded)})")))
             if mo != got:
@@ -310,16 +375,16 @@ def run(ctx):
             # under VERIF_SEED=1.  Empty data is still covered by expand-then-split above and by the
             # theorem escape_inert, which speaks about separator positions.)
             n_inert += 1
-            want = inert_expect(cp, lpre, rpost, d)
+            want = safe(inert_expect, cp, lpre, rpost, d)
             if got != want:
-                v.failing_input("escape-not-inert", f"parse({tmpl!r}, x={d!r}) = {got!r}, expected {want!r}",
-                                dict(fn="inert", pre=pre, post=post, d=d))
+                rr = dict(fn="inert", pre=pre, post=post, d=d)
+                v.failing_input(u1_key(rr, "escape-not-inert"), f"parse({tmpl!r}, x={d!r}) = {got!r}, expected {want!r}", rr)
     ctx.stats["inertness_cases"] = n_inert
 
     v.coverage["distinct_nontrivial"] = len(nontrivial)
     v.coverage["exhaustive"] = True
     v.coverage["rule"] = (
-        f"exhaustive: every string of length <= {maxlen} over {ALPHA!r} through split_by_separator (both separators), "
+        f"exhaustive: every string of length <= {maxlen} over {alpha!r} through split_by_separator (both separators), "
         "split_into_lists, cleanse, escape_string on model and implementation; enumerated + random nested values "
         "(85% well-formed by construction, 15% malformed incl. empty lists, depth 3, trailing blanks) through "
         "join_from_lists/wfb/trim and the round-trip oracle; random long/unicode strings; templates with the escape filter. "
@@ -332,20 +397,40 @@ def run(ctx):
     ]
 
 
-def replay(rep):
+def holds(r):
+    """the property's oracle on one replay record (the same judgements as in run)"""
     from rpft.parsers.common.cellparser import CellParser
 
     cp = CellParser()
-    r = rep["replay"]
     if r["fn"] == "roundtrip":
         x = r["value"]
-        ok = cp.split_into_lists(cp.join_from_lists(x)) == trim(x)
+        try:
+            j = cp.join_from_lists(x)
+        except Exception:
+            return False
+        ok = cp.split_into_lists(j) == trim(x)
         if wf_statement(trim(x)):
-            ok = ok and cp.parse(cp.join_from_lists(x)) == trim(x)
+            ok = ok and cp.parse(j) == trim(x)
         return ok
     if r["fn"] == "split_into_lists":
-        return has_unescaped(r["s"]) == isinstance(cp.split_into_lists(r["s"]), list)
+        try:
+            cp.cleanse(r["s"])
+            return has_unescaped(r["s"]) == isinstance(cp.split_into_lists(r["s"]), list)
+        except Exception:
+            return False
     if r["fn"] == "inert":
-        got = cp.parse(r["pre"] + "{{x|escape}}" + r["post"], {"x": r["d"]})
-        return got == inert_expect(cp, r["pre"].lstrip(), r["post"].rstrip(), r["d"])
+        pre, post, d = r["pre"], r["post"], r["d"]
+        res = run_cli_mode(cp.parse, pre + "{{x|escape}}" + post, {"x": d})
+        if res[0] != "ok":
+            return False
+        lpre, rpost = pre.lstrip(), post.rstrip()
+        if res[1] != cp.split_into_lists(lpre + CellParser.escape_string(d) + rpost):
+            return False
+        if not ends_escaped(lpre) and d != "":
+            return res[1] == inert_expect(cp, lpre, rpost, d)
+        return True
     return True
+
+
+def replay(rep):
+    return holds(rep["replay"])
